@@ -520,7 +520,9 @@ def run(ctx):
         "nested record / record[] fields, grouped records, keyword-named fields, legacy list types in 1/6 of the cases; values "
         "from boundary tables: ints around 2^7..2^64 and beyond, msgpack length classes, surrogate escapes, float bit patterns, "
         "offsets with seconds, IANA zones with folds/gaps, both path/command flavours, both address families) through "
-        "RecordStreamWriter/Reader on BytesIO and RecordWriter/RecordReader on paths (none/gz/bz2/lz4/zst). distinct = distinct "
+        "RecordStreamWriter/Reader on BytesIO and RecordWriter/RecordReader on paths (none/gz/bz2/lz4/zst); in a quarter of the cases "
+        "the written records are twins whose typed lists hold raw unconverted elements; every third pair of cases is also read as "
+        "ONE file holding the two streams one after the other (appended streams). distinct = distinct "
         "deep observation of the written sequence; non-trivial = at least one declared field is not None")
     n = 96 if ctx.tier == "quick" else 1200
     ok = core.standard_proof_stage(ctx, ["props/C01.vo", "model/Observe.vo"], "C01", THEOREMS, search_fn=search, gens=["gen_packer"])
